@@ -1,7 +1,7 @@
 (** C06 — property theorems (statements closed by [exact]). *)
 From Coq Require Import ZArith QArith List.
 From KV Require Import Base.Outcome Base.Num C19.Model C19.ProofsEasing C06.Model C06.Dur C06.Proofs C06.Proofs2.
-From KV Require Import C06.ModelOwners C06.ProofsOwners C03.Model C06.OwnersSound C06.ProofsOwnersSound C06.ProofsOwnersC12.
+From KV Require Import C06.ProofsFollow C06.ModelOwners C06.ProofsOwners C03.Model C06.OwnersSound C06.ProofsOwnersSound C06.ProofsOwnersC12.
 From KV Require Base.IEEE C17.Model C12.Model C06.ProofsOwnersMod C06.RunOwners.
 Import ListNotations.
 Local Open Scope Q_scope.
@@ -427,3 +427,72 @@ Theorem tweener_finish_by_interpolation_refuted :
             (C17.Model.tweener_set (C17.Model.tweener_new v0) v1 (C06.ProofsOwnersMod.tw64 dur)))) =
     Base.IEEE.bits_of_f64 v1.
 Proof. exact C06.ProofsOwnersMod.tweener_finish_by_interpolation_refuted_proof. Qed.
+
+(** * Targets that are not fixed: a modulator, the listener distance (value.rs) *)
+
+(** Sent to a modulator or to the listener distance with any tween, a parameter is never marked
+    stagnant, during the tween and after it, whatever the updates. *)
+Theorem linked_target_stays_live :
+  forall (T : Type) (NT : Num T) (ND : NumDur T) (powf : T -> T -> T) (V : Type) (interp : V -> V -> T -> V)
+    (v : value T V) (l : list (T * info T)) (p p' : param T V),
+    linked V v -> live_on V v p -> param_run powf V interp p (updates_of V l) = Ok p' -> live_on V v p'.
+Proof. exact @linked_target_stays_live_proof. Qed.
+
+(** Resting on such a target, one update takes the CURRENT value of what the parameter is linked to
+    (and holds the old one if that does not resolve). *)
+Theorem idle_linked_update :
+  forall (T : Type) (NT : Num T) (ND : NumDur T) (powf : T -> T -> T) (V : Type) (interp : V -> V -> T -> V)
+    (v : value T V) (p : param T V) (dt : T) (i : info T),
+    linked V v -> p_state p = Idle v -> p_stagnant p = false ->
+    param_update powf V interp p dt i =
+    Ok ({| p_state := Idle v;
+           p_raw := match raw_of powf interp i v with Some x => x | None => p_raw p end;
+           p_prev := p_raw p; p_stagnant := false |}, false).
+Proof. exact @idle_linked_update_proof. Qed.
+
+(** ... and so for EVERY later update. *)
+Theorem idle_linked_follows_forever :
+  forall (T : Type) (NT : Num T) (ND : NumDur T) (powf : T -> T -> T) (V : Type) (interp : V -> V -> T -> V)
+    (v : value T V) (l : list (T * info T)) (p : param T V) (dt : T) (i : info T),
+    linked V v -> p_state p = Idle v -> p_stagnant p = false ->
+    exists p' : param T V,
+      param_run powf V interp p (updates_of V (l ++ [(dt, i)])) = Ok p' /\
+      p_state p' = Idle v /\ p_stagnant p' = false /\
+      (forall x : V, raw_of powf interp i v = Some x -> p_raw p' = x).
+Proof. exact @idle_linked_follows_forever_proof. Qed.
+
+(** From the command on: linked at run time with any tween (zero length included); once the tween
+    has finished, after any further updates, the update made with [i] leaves the parameter on the
+    value its target has in [i] (the mapping of the current distance / modulator value). *)
+Theorem linked_target_followed_after_tween :
+  forall (T : Type) (NT : Num T) (ND : NumDur T) (powf : T -> T -> T) (V : Type) (interp : V -> V -> T -> V)
+    (p p1 : param T V) (v : value T V) (tw : tween T) (l1 l2 : list (T * info T)) (dt : T) (i : info T),
+    linked V v ->
+    param_run powf V interp (param_set p v tw) (updates_of V l1) = Ok p1 -> p_state p1 = Idle v ->
+    exists p' : param T V,
+      param_run powf V interp (param_set p v tw) (updates_of V (l1 ++ l2 ++ [(dt, i)])) = Ok p' /\
+      p_state p' = Idle v /\ p_stagnant p' = false /\
+      (forall x : V, raw_of powf interp i v = Some x -> p_raw p' = x).
+Proof. exact @linked_target_followed_after_tween_proof. Qed.
+
+(** A fixed target may go stagnant: with or without the flag, value, previous value and state are
+    the target's from the next update on. *)
+Theorem fixed_target_stagnant_unobservable :
+  forall (T : Type) (NT : Num T) (ND : NumDur T) (powf : T -> T -> T) (V : Type) (interp : V -> V -> T -> V)
+    (p : param T V) (tg : V) (l : list (T * info T)) (dt : T) (i : info T),
+    p_state p = Idle (Fixed tg) -> p_raw p = tg ->
+    exists p' : param T V,
+      param_run powf V interp p (updates_of V ((dt, i) :: l)) = Ok p' /\
+      p_state p' = Idle (Fixed tg) /\ p_raw p' = tg /\ p_prev p' = tg.
+Proof. exact @fixed_target_stagnant_unobservable_proof. Qed.
+
+(** "Stagnant unless the target follows a modulator", refuted on a listener-distance target. *)
+Theorem stagnant_unless_modulator_refuted :
+  exists (p1 p2 : param Q Q) (f1 f2 : bool),
+    param_update_stagnant_unless_mod pwq Q lerpq (param_set (param_new (Fixed 0) 0) (FromDist dist_map) tw_zero)
+      (1 # 64) (at_dist 10) = Ok (p1, f1) /\
+    param_update_stagnant_unless_mod pwq Q lerpq p1 (1 # 64) (at_dist 50) = Ok (p2, f2) /\
+    p_state p2 = Idle (FromDist dist_map) /\
+    p_raw p2 == -4 /\
+    (exists x : Q, raw_of pwq lerpq (at_dist 50) (FromDist dist_map) = Some x /\ x == -20 /\ ~ p_raw p2 == x).
+Proof. exact stagnant_unless_modulator_refuted_proof. Qed.
